@@ -225,7 +225,7 @@ Definition ufops (ops : list (list Z)) : list Z :=
    priorities, [2] pop, [3] peek, [4;o] priority, [5;o;v] set_priority, [6] len *)
 Notation H := (heap PrimFloat.float).
 Definition hltb := PrimFloat.ltb.
-Definition hmax := f_max F64.
+Definition hmax := f_inf F64.
 
 Definition heap_step (h : H) (o : list Z) : H * list Z :=
   match o with
